@@ -572,7 +572,7 @@ func (ex *Exec) replayValueFunction(ob *Obligation, workDir string) *replayResul
 	fn := snap.Fn
 	res.Fn = fn.String()
 	rc := &replayCtx{ex: ex, model: map[string]*Term{}, imports: map[string]string{}, pkg: fn.Pkg.Pkg, heap: snap.Heap, objMap: map[*Object]*Object{},
-		st: &State{Heap: map[*Object]Value{}, PreHeap: map[*Object]Value{}, Ghost: map[string]Value{}, Held: map[string]int{}}}
+		st: &State{Heap: map[*Object]Value{}, PreHeap: map[*Object]Value{}, Ghost: map[string]Value{}, PreGhost: map[string]Value{}, Held: map[string]int{}}}
 	for k, v := range ob.Model {
 		switch v {
 		case "true":
